@@ -201,6 +201,32 @@ func TestInMemorySessionStore_GetAndDelete(t *testing.T) {
 	})
 }
 
+func TestInMemorySessionStore_PutIfAbsent(t *testing.T) {
+	db := createDatabase(t)
+	store := db.GetStore(time.Minute, "prefix").(SessionStoreImpl[[]byte])
+
+	t.Run("ok", func(t *testing.T) {
+		stored, err := store.PutIfAbsent(t.Name(), "value")
+
+		require.NoError(t, err)
+		assert.True(t, stored)
+		var actual string
+		require.NoError(t, store.Get(t.Name(), &actual))
+		assert.Equal(t, "value", actual)
+	})
+	t.Run("already exists", func(t *testing.T) {
+		_ = store.Put(t.Name(), "value")
+
+		stored, err := store.PutIfAbsent(t.Name(), "other value")
+
+		require.NoError(t, err)
+		assert.False(t, stored)
+		var actual string
+		require.NoError(t, store.Get(t.Name(), &actual))
+		assert.Equal(t, "value", actual)
+	})
+}
+
 type testStruct struct {
 	Field1 string `json:"field1"`
 }
